@@ -17,8 +17,11 @@ Transforms(s) ==
   \cup {<<"rot", s, a, q, c>> : a \in {"X", "Y", "Z"}, q \in 1..3, c \in {<<0, 0, 0>>, <<1, 0, -1>>}}
   \cup {<<"repeatx", s, r, o>> : r \in {1, 2}, o \in {0, 1}}
   \cup {<<"extrudez", s, -1, 2>>}
-Revolved == {<<"revolvey", <<"circle", <<2, 0>>, 1>>>>, <<"revolvey", <<"rect", <<1, -1>>, <<3, 1>>>>>>,
-             <<"revolvey", <<"circle", <<3, 1>>, 2>>>>, <<"revolvey", <<"move", <<"rect", <<0, 0>>, <<2, 2>>>>, <<1, -1, 0>>>>>>}
+Revolved == {<<"revolvey", <<"circle", <<2, 0>>, 1>>, 0>>, <<"revolvey", <<"rect", <<1, -1>>, <<3, 1>>>>, 0>>,
+             <<"revolvey", <<"circle", <<3, 1>>, 2>>, 0>>, <<"revolvey", <<"move", <<"rect", <<0, 0>>, <<2, 2>>>>, <<1, -1, 0>>>>, 0>>,
+             \* about a line other than the Y axis (offset 1, -1, 2)
+             <<"revolvey", <<"circle", <<3, 0>>, 1>>, 1>>, <<"revolvey", <<"rect", <<1, -1>>, <<2, 1>>>>, -1>>,
+             <<"revolvey", <<"rect", <<3, 0>>, <<4, 2>>>>, 2>>, <<"revolvey", <<"circle", <<0, 1>>, 1>>, -1>>}
 Level1 == UNION {Transforms(s) : s \in Prims} \cup Revolved
 Level2 == UNION {Transforms(s) : s \in (IF Deep THEN Level1 ELSE {t \in Level1 : t[1] \in {"move", "rot", "scale", "revolvey"}})}
 Csg == LET a == <<"sphere", <<0, 0, 0>>, 2>>  b == <<"box", <<-1, 0, -2>>, <<2, 1, 1>>>>
